@@ -187,6 +187,26 @@ static bool equalUpToOuterDelims(const string& in, const string& r, const string
   return false;
 }
 
+// integers of the strict grammar whose value does or does not fit an int: the value the grammar assigns, or the library's exception
+static void intLimitSpace(vf::Runner& R) {
+  static const vector<string> IN = {"2147483647", "2147483648", "-2147483648", "-2147483649", "99999999999", "-99999999999", "2147483647e0", "2147483648e0", "-2147483648e0", "-2147483649e0",
+                                    "214748364e1", "214748365e1", "-214748364e1", "-214748365e1", "9223372036854775807", "9223372036854775808", "99999999999999999999", "1e9", "1e10", "3e9", "2e9", "0e99", "00000000002147483647"};
+  R.space("numbers:toInt:values-at-and-beyond-the-limits-of-int", IN.size(), [=](uint64_t idx, vf::Case& c) {
+    const string& t = IN[idx];
+    // exact value in 128 bits: mantissa digits times 10^exponent (all entries have at most 20 digits and exponents <= 99)
+    size_t e = t.find('e'); string m = t.substr(0, e); int ex = e == string::npos ? 0 : atoi(t.c_str() + e + 1);
+    bool neg = m[0] == '-'; __int128 v = 0; bool huge = false;
+    for (size_t i = neg ? 1 : 0; i < m.size(); ++i) { v = v * 10 + (m[i] - '0'); if (v > (__int128)1 << 100) huge = true; }
+    for (int k = 0; k < ex && v != 0 && !huge; ++k) { v *= 10; if (v > (__int128)1 << 100) huge = true; }
+    if (neg) v = -v;
+    bool fits = !huge && v >= (__int128)std::numeric_limits<int>::min() && v <= (__int128)std::numeric_limits<int>::max();
+    c.site("TextTools::toInt"); c.nontrivial();
+    int got = 0; bool raised = false; try { got = TextTools::toInt(t); } catch (bpp::Exception&) { raised = true; }
+    c.tag(fits ? "toInt: value fits an int" : "toInt: value beyond the limits of int");
+    if (fits && (raised || (__int128)got != v)) c.fail("numbers|toInt|value", "toInt(" + show(t) + ") " + (raised ? string("raised") : "= " + vf::str(got)) + ", the grammar assigns " + vf::str((long long)v));
+    if (!fits && !raised) c.fail("numbers|toInt|value-beyond-int-returned-silently", "toInt(" + show(t) + ") = " + vf::str(got) + " although the value does not fit an int");
+  });
+}
 static void tokenizerSpace(vf::Runner& R, int L) {
   vector<string> alpha = {"a", "b", ",", " ", "(", ")", "="};
   vector<string> dl = {",", ", ", ",,"};
@@ -240,6 +260,29 @@ static void tokenizerSpace(vf::Runner& R, int L) {
   }, 5.0);
 }
 
+// nested tokenizer, solid mode (the delimiter is one string): every token is bracket-balanced, and the tokens put together are the input with
+// the delimiter occurrences met at bracket depth 0 (left to right, non-overlapping) taken out -- a bracket group keeps every character
+static void nestedSolidSpace(vf::Runner& R, int L) {
+  vector<string> alpha = {"a", ",", "(", ")", " "};
+  uint64_t A = alpha.size(), N = countUpTo(A, L);
+  R.space("nested-tokenizer:solid:letters=5:len<=" + vf::str(L) + ":delims={\", \",\",,\"}:balanced-inputs", N * 2, [=](uint64_t idx, vf::Case& c) {
+    int o = (int)(idx % 2); string s = join(seqOf(idx / 2, A), alpha);
+    string d = o ? ",," : ", ";
+    bool bal = true; { int dp = 0; for (char ch : s) { if (ch == '(') ++dp; if (ch == ')') { if (--dp < 0) bal = false; } } if (dp != 0) bal = false; }
+    if (!bal) { c.tag("nested-solid: unbalanced input (outside the clause)"); return; }
+    string in = "NestedStringTokenizer(" + show(s) + ", \"(\", \")\", delimiters=" + show(d) + ", solid)";
+    string want; { int depth = 0; for (size_t i = 0; i < s.size();) { if (depth == 0 && s.compare(i, d.size(), d) == 0) { i += d.size(); continue; } if (s[i] == '(') ++depth; if (s[i] == ')') --depth; want += s[i]; ++i; } }
+    if (want != s) c.nontrivial();
+    c.site("NestedStringTokenizer::NestedStringTokenizer");
+    vector<string> got; bool raised = false;
+    try { NestedStringTokenizer st(s, "(", ")", d, true); while (st.hasMoreToken()) got.push_back(st.nextToken()); } catch (bpp::Exception&) { raised = true; }
+    c.tag("nested-solid: balanced input");
+    if (raised) { c.fail("nested-solid|balanced-input|raised", in + ": raised on a bracket-balanced string"); return; }
+    string cat; for (auto& t : got) { cat += t; int dp = 0; bool b = true; for (char ch : t) { if (ch == '(') ++dp; if (ch == ')') { if (--dp < 0) b = false; } } if (dp != 0) b = false;
+      if (!b) c.fail("nested-solid|token|split-inside-brackets", in + ": token " + show(t) + " has unbalanced brackets"); }
+    if (cat != want) c.fail("nested-solid|tokens|characters-lost-or-added", in + ": tokens " + vf::vstr(got) + " put together give " + show(cat) + ", expected " + show(want));
+  }, 5.0);
+}
 // nested tokenizer: reference = split at delimiter characters met at bracket depth 0, dropping empty pieces
 static bool balanced(const string& s) { int d = 0; for (char ch : s) { if (ch == '(') ++d; if (ch == ')') { if (--d < 0) return false; } } return d == 0; }
 static void nestedSpace(vf::Runner& R, int L) {
@@ -277,14 +320,14 @@ static void keyvalSpace(vf::Runner& R, int nkeys) {
   const vector<string> names = {"f", "g2"};
   // entry choice per key: absent or one of the 4 values; style: 0 "k=v,k=v" ascending, 1 descending, 2 ", " separated with blanks around '='?? (only blanks after the comma)
   uint64_t M = 1; for (int i = 0; i < nkeys; ++i) M *= 5;
-  const int NSTYLE = 3, NCH = 5;   // change sets
-  R.space("keyval:keys<=" + vf::str(nkeys) + ":values=4:names=2:styles=3:changes=5", M * 2 * NSTYLE * NCH, [=](uint64_t idx, vf::Case& c) {
+  const int NSTYLE = 4, NCH = 5;   // rendering styles (3: blanks after the comma and around '='); change sets
+  R.space("keyval:keys<=" + vf::str(nkeys) + ":values=4:names=2:styles=4:changes=5", M * 2 * NSTYLE * NCH, [=](uint64_t idx, vf::Case& c) {
     vector<int> dd = vf::digits(idx, {NCH, NSTYLE, 2, (int)M});
     int ch = dd[0], style = dd[1]; const string& name = names[(size_t)dd[2]]; uint64_t m = (uint64_t)dd[3];
     map<string, string> args; vector<string> order;
     for (int i = 0; i < nkeys; ++i) { int v = (int)(m % 5); m /= 5; if (v) { args[keys[(size_t)i]] = vals[(size_t)(v - 1)]; order.push_back(keys[(size_t)i]); } }
     if (style == 1) std::reverse(order.begin(), order.end());
-    string body; for (size_t i = 0; i < order.size(); ++i) { if (i) body += (style == 2 ? ", " : ","); body += order[i] + "=" + args[order[i]]; }
+    string body; for (size_t i = 0; i < order.size(); ++i) { if (i) body += (style >= 2 ? ", " : ","); body += order[i] + (style == 3 ? " = " : "=") + args[order[i]]; }
     string desc = name + "(" + body + ")";
     if (style == 2 && args.empty()) desc = name;   // a procedure without arguments may be written without brackets
     if (!args.empty()) c.nontrivial();
@@ -540,8 +583,10 @@ int main(int argc, char** argv) {
   numbersSpace(R, "default(dec='.',sci='e')", {"0", "1", "9", ".", "-", "+", "e", "E", " "}, th ? 6 : 5, '.', 'e');
   numbersSpace(R, "configured(dec=',',sci='E')", {"1", "5", ",", ".", "-", "E", "e"}, th ? 5 : 4, ',', 'E');
   formatSpaces(R);
+  intLimitSpace(R);
   tokenizerSpace(R, th ? 7 : 5);
   nestedSpace(R, th ? 8 : 6);
+  nestedSolidSpace(R, th ? 9 : 7);
   keyvalSpace(R, th ? 6 : 4);
   wildcardSpace(R, th ? 8 : 6);
   variableSpace(R, th);
